@@ -1,6 +1,6 @@
 (* C12 - intersection queries are exact for segments. *)
 From Coq Require Import QArith Qabs.
-From LV Require Import Base.Prelude Model.Bezier Model.LineInter Proofs.C12_LineInter.
+From LV Require Import Base.Prelude Model.Bezier Model.LineInter Proofs.C12_LineInter Gen.Functions Proofs.Gen_Geom Proofs.Gen_GeomProps.
 Open Scope Q_scope.
 
 (* the returned parameters locate a common point on both segments, which are then
@@ -50,6 +50,22 @@ Example C12_example :
   meet_at (mkLine (0,0) (2,2)) (mkLine (0,2) (2,0)) (1#2) (1#2).
 Proof. split; [vm_compute; reflexivity | unfold meet_at, peq; vm_compute; intuition discriminate]. Qed.
 
+
+(* ---- on the functions regenerated from /repo/crates/geom/src/line.rs on every run (tools/rs2coq.py) *)
+Theorem C12_intersections_are_source : forall s o lp lv,
+  src_line_intersection_t s o = seg_intersection_t s o /\
+  src_line_line_intersection_t s lp lv = seg_line_intersection_t s lp lv.
+Proof. intros s o lp lv. split; [exact (src_line_intersection_t_is_model s o)|exact (src_line_line_intersection_t_is_model s lp lv)]. Qed.
+
+Theorem C12_src_line_intersection_sound : forall s o t u, src_line_intersection_t s o = Some (t, u) ->
+  meet_at s o t u /\ ~ parallel s o /\ ~ shares_endpoint s o.
+Proof. exact src_line_intersection_sound. Qed.
+
+Theorem C12_src_line_intersection_complete : forall s o t u,
+  ~ shares_endpoint s o -> ~ parallel s o -> meet_at s o t u ->
+  exists t' u', src_line_intersection_t s o = Some (t', u') /\ t' == t /\ u' == u.
+Proof. exact src_line_intersection_complete. Qed.
+
 Print Assumptions C12_inter_sound.
 Print Assumptions C12_inter_complete.
 Print Assumptions C12_inter_unique.
@@ -58,3 +74,6 @@ Print Assumptions C12_inter_shared_endpoint_none.
 Print Assumptions C12_inter_sym.
 Print Assumptions C12_seg_line_sound.
 Print Assumptions C12_seg_line_complete.
+Print Assumptions C12_intersections_are_source.
+Print Assumptions C12_src_line_intersection_sound.
+Print Assumptions C12_src_line_intersection_complete.
